@@ -25,14 +25,38 @@ class Grammar:
                 r = prog.resolve_expr_symbol(m, None, v.func)
                 if r and r[0] == "ext" and r[1].split(".")[-1] == "Lark":
                     self.call, self.var = v, name
+                elif r and r[0] == "ext" and r[1].split(".")[-2:] == ["Lark", "open"]:
+                    self.call, self.var, self.from_file = v, name, True
         if self.call is None:
             raise AnalysisError("anchor vanished: no module-level Lark(...) call in %s" % module)
-        try:
-            self.text = ast.literal_eval(self.call.args[0])
-        except Exception:
-            raise AnalysisError("grammar argument of Lark(...) is not a literal")
+        if getattr(self, "from_file", False):
+            # Lark.open("<file>", rel_to=__file__, ...): the grammar is a data file next to the module
+            import os
+            a0 = self.call.args[0] if self.call.args else None
+            if isinstance(a0, ast.Name) and isinstance(m.assigns.get(a0.id), ast.Constant):
+                a0 = m.assigns[a0.id]
+            try:
+                fn = ast.literal_eval(a0)
+            except Exception:
+                raise AnalysisError("grammar file argument of Lark.open(...) is not a literal")
+            rel = next((k.value for k in self.call.keywords if k.arg == "rel_to"), None)
+            base = os.path.dirname(m.path) if isinstance(rel, ast.Name) and rel.id == "__file__" else None
+            if base is None:
+                raise AnalysisError("Lark.open(...) without rel_to=__file__: grammar file location not decided")
+            try:
+                with open(os.path.join(base, fn), encoding="utf-8") as fh:
+                    self.text = fh.read()
+            except OSError as e:
+                raise AnalysisError("grammar file does not load: %s" % e)
+        else:
+            try:
+                self.text = ast.literal_eval(self.call.args[0])
+            except Exception:
+                raise AnalysisError("grammar argument of Lark(...) is not a literal")
         self.options = {}
         for k in self.call.keywords:
+            if k.arg == "rel_to":
+                continue
             try:
                 self.options[k.arg] = ast.literal_eval(k.value)
             except Exception:
